@@ -8,6 +8,7 @@ from .. import bits, fields, paths
 from ..core import FUNC, call_attr, calls_in, const, dotted, is_const, kwarg, norm, slice_parts, text, walk_local
 
 EXPLANATION = [
+    'C19.records-not-aliased: (shared with C17) every local container that a method of sdp.Server modifies in place is one the method created: answering a request never edits a registered record, so later transactions still return exactly the registered attributes.',
     'C19.missing-await: inside async functions no call that resolves (through the declared type of self.<attr>, or self) to a coroutine method is returned or dropped without await.',
     "C19.identity: no `is` / `is not` comparison in the anchored modules has an operand declared as a number, byte string or string (identity of equal integers holds only inside CPython's small-integer cache, so such a test is right for values up to 256 and wrong afterwards).",
     'C19.sdp-codecs: every _parse_X / _serialize_X helper pair of bumble.sdp uses the same set of struct item types (byte order, width and signedness of each item) on both sides.',
@@ -633,7 +634,13 @@ def missing_await_rule(ctx):
     missing_await(ctx, 'C19.missing-await', ['bumble.avdtp', 'bumble.sdp', 'bumble.avctp', 'bumble.avrcp', 'bumble.a2dp'])
 
 
+def records_not_aliased_rule(ctx):
+    from .c17 import records_not_aliased
+    records_not_aliased(ctx, 'C19.records-not-aliased')
+
+
 RULES = [
+    ('C19.records-not-aliased', records_not_aliased_rule),
     ('C19.missing-await', missing_await_rule),
     ('C19.identity', identity_rule),
     ('C19.sdp-all', sdp_all),
